@@ -553,7 +553,10 @@ func (e *Env) clientsDone() bool {
 	return true
 }
 
-// RunClients schedules until every client finished. Returns the scheduler error, if any.
+// RunClients schedules until every client finished. The case's policy (which may starve a
+// client for long stretches) applies up to the step budget / simulated horizon; after that the
+// run continues under the fair policy, so that "the client never finished" is only ever reported
+// when it does not finish under fair scheduling either.
 func (e *Env) RunClients() error {
 	max := e.C.MaxSteps
 	if max <= 0 {
@@ -563,7 +566,13 @@ func (e *Env) RunClients() error {
 	if e.C.Horizon > 0 {
 		dl = e.Now() + time.Duration(e.C.Horizon)
 	}
-	return e.Sim.Run(e.clientsDone, max, dl)
+	err := e.Sim.Run(e.clientsDone, max, dl)
+	if err == simrt.ErrDeadline || err == simrt.ErrMaxSteps {
+		e.Probe("client_phase_finished_under_fair_policy")
+		e.Sim.SetPolicy(simrt.Policy{Kind: "fair"})
+		err = e.Sim.Run(e.clientsDone, max, 0)
+	}
+	return err
 }
 
 // Settle lets the engine run under a fair policy for d of fake time (timers fire, queues drain).
